@@ -585,6 +585,11 @@ class XsdElement(XsdComponent, ParticleMixin,
                 with self.maps.protect_status():
                     if ns in self.maps.namespaces:
                         schema = self.maps.namespaces[ns][0]
+                        if schema.maps is not self.maps:
+                            # A namespace of the meta-schema (or of another ancestor):
+                            # its maps, and its loader settings, are not the ones
+                            # of this schema and are never extended by an instance.
+                            continue
                         schema.include_schema(url, base_url)
                     else:
                         schema = self.schema
@@ -1476,6 +1481,11 @@ class Xsd11Element(XsdElement):
                 with self.maps.protect_status():
                     if ns in self.maps.namespaces:
                         schema = self.maps.namespaces[ns][0]
+                        if schema.maps is not self.maps:
+                            # A namespace of the meta-schema (or of another ancestor):
+                            # its maps, and its loader settings, are not the ones
+                            # of this schema and are never extended by an instance.
+                            continue
                         schema.include_schema(url, base_url)
                     else:
                         schema = self.schema
